@@ -81,6 +81,15 @@ def journalC (C : Crypto) (s : Core × Disk) : Op → List SOp
 /-- the stores if the process dies after the first `k` storage operations of the call -/
 def crashDisk (C : Crypto) (s : Core × Disk) (op : Op) (k : Nat) : Disk := s.2.applyAll ((journalC C s op).take k)
 
+/-- the stores if the process dies *during* storage operation `k` of a journal and that operation is a write of
+    which only the first `t` bytes arrive (for any other kind of operation: the stores before it) -/
+def tornApply (d : Disk) (j : List SOp) (k t : Nat) : Disk :=
+  match j[k]? with
+  | some (.write st off bs) => (d.applyAll (j.take k)).apply (.write st off (bs.take t))
+  | _ => d.applyAll (j.take k)
+
+def tornDisk (C : Crypto) (s : Core × Disk) (op : Op) (k t : Nat) : Disk := tornApply s.2 (journalC C s op) k t
+
 /-- the calls C01 quantifies over: `clear` with `start < end` is called with `start < length`; sizes
     stay within what the on-disk format can represent -/
 def Valid (a : Abs) : Op → Prop
